@@ -57,6 +57,7 @@ struct Opt {
     int fv = 0;      // force_visible_flag (XML only)
     int zip = 0;     // file compression 0 none 1 gz 2 bz2
     int thr = 1;     // threads of the pool handed to Writer and Reader
+    int cap = 0;     // initial capacity of the readers' output buffers (hook H8, harness built with OSMIUM_VERIF_DYNAMIC_BUFFER_SIZE); 0 = compiled-in
     bool xml() const { return fmt <= 2; }
     bool pbf() const { return fmt == 3 || fmt == 4; }
     bool opl() const { return fmt == 5; }
@@ -78,11 +79,11 @@ static std::string meta_string(int m) {
 static std::string opt_string(const Opt& o) {   // the replay form
     char b[96];
     snprintf(b, sizeof b, "f%d,d%d,p%d,m%d,l%d,v%d,z%d,t%d", o.fmt, o.dense, o.pcomp, o.meta, o.low, o.fv, o.zip, o.thr);
-    return b;
+    return o.cap ? std::string(b) + ",c" + std::to_string(o.cap) : std::string(b);
 }
 static Opt opt_parse(const std::string& s) {
     Opt o;
-    sscanf(s.c_str(), "f%d,d%d,p%d,m%d,l%d,v%d,z%d,t%d", &o.fmt, &o.dense, &o.pcomp, &o.meta, &o.low, &o.fv, &o.zip, &o.thr);
+    sscanf(s.c_str(), "f%d,d%d,p%d,m%d,l%d,v%d,z%d,t%d,c%d", &o.fmt, &o.dense, &o.pcomp, &o.meta, &o.low, &o.fv, &o.zip, &o.thr, &o.cap);
     return o;
 }
 // the format string handed to osmium::io::File (this is how users give writer options)
@@ -93,7 +94,13 @@ static std::string opt_format_string(const Opt& o) {
     if (o.xml()) s += std::string(",force_visible_flag=") + (o.fv ? "true" : "false");
     return s;
 }
-static std::string opt_human(const Opt& o) { return opt_format_string(o) + " pool_threads=" + std::to_string(o.thr); }
+static std::string opt_human(const Opt& o) { return opt_format_string(o) + " pool_threads=" + std::to_string(o.thr) + (o.cap ? " reader_buffer_capacity=" + std::to_string(o.cap) : ""); }
+
+// hook H8: initial capacity of the buffers the decoders build objects in (set per evaluation from Opt::cap)
+static size_t g_reader_cap = 0;
+#ifdef OSMIUM_VERIF_DYNAMIC_BUFFER_SIZE
+extern "C" std::size_t osmium_verif_dynamic_buffer_size(std::size_t compiled_in_size) { return g_reader_cap ? g_reader_cap : compiled_in_size; }
+#endif
 
 // Option vectors; options a format does not read are held at their default.
 //   level 3: every vector (7296)
@@ -399,6 +406,7 @@ static Outcome cycle(const DataSet& d, const Opt& o) {
     bool reader_failed = false; std::string rmsg;
     auto read_back = [&](const osmium::io::File& f) {
         got.clear(); gh = AHeader{}; reader_failed = false; rmsg.clear();
+        g_reader_cap = static_cast<size_t>(o.cap);
         try {
             osmium::io::Reader reader{f, osmium::osm_entity_bits::all, *g_pool[o.thr]};
             osmium::io::Header h = reader.header();
@@ -979,6 +987,24 @@ static void part_ofat(const Args& a) {
     run_groups(a, gs);
 }
 
+// cap: the readers build every object in a buffer of EVERY initial capacity 64..640 (step 8; thorough ..1280): for some capacity each
+// builder call of each decoder (user, tag, way node, member + role, changeset comment + text) is the one at which the buffer grows or a
+// nested buffer is started. Needs the harness built with hook H8 (h01cap).
+static void part_cap(const Args& a) {
+#ifndef OSMIUM_VERIF_DYNAMIC_BUFFER_SIZE
+    (void)a; benum::note("part cap needs the h01cap build (hook H8)"); benum::bound("reader buffer capacity sweep", false);
+#else
+    Group g; g.bound = std::string("reader buffer capacity sweep: every capacity 64..") + (a.thorough ? "1280" : "640") + " step 8 x one vector per format and PBF encoding x one-factor sequences of n/w/r/c and the mixed sequence";
+    for (const char* t : {"n", "w", "r", "c"}) g.names.push_back(std::string("ofat:") + t + ":0");
+    g.names.push_back("mixed:0");
+    for (int cap = 64; cap <= (a.thorough ? 1280 : 640); cap += 8) for (const Opt& o : all_opts(0)) {
+        if (o.pbf() && o.pcomp != 1) continue;          // blob compression does not reach the decoder's builders
+        Opt x = o; x.cap = cap; g.opts.push_back(x);
+    }
+    run_groups(a, {g});
+#endif
+}
+
 static void part_prod(const Args& a) {
     Group g; g.bound = std::string("reduced product: 2-3 values per field, all combinations, in sequences of ") + std::to_string(PROD_CHUNK) + " objects x " + (a.thorough ? "every option vector" : "level-1 option vectors");
     for (char t : {'n', 'w', 'r', 'c'}) { uint64_t chunks = (prod_total(t) + PROD_CHUNK - 1) / PROD_CHUNK; for (uint64_t c = 0; c < chunks; ++c) g.names.push_back(std::string("prod:") + t + ":" + std::to_string(c) + ":" + std::to_string(PROD_CHUNK)); }
@@ -1174,6 +1200,7 @@ int main(int argc, char** argv) {
     else if (part == "big") part_big(a);
     else if (part == "hdr") part_hdr(a);
     else if (part == "bbox") part_bbox(a);
+    else if (part == "cap") part_cap(a);
     else { fprintf(stderr, "unknown part\n"); cleanup_dir(); return 2; }
     C.emit();
     cleanup_dir();
